@@ -218,6 +218,15 @@ def eval_roundtrip(case):
                 continue
             if str(got.get(k)) != str(want):
                 out.bad('field-not-restored:%s' % k, '%s: header has %s:%r, decoded tag is %r' % (name, k, v, got.get(k)))
+        # every tag of the demultiplexer's record that is meant to be written (also 0 valued ones) comes back
+        for k, v in tags.items():
+            if k not in TagDefinitions or TagDefinitions[k].doNotWrite or v is None or v == '' or k in ('BI',):
+                continue
+            want = ds.safe_to_phred(str(v)) if TagDefinitions[k].isPhred else (str(v).lstrip('@') if k == 'Is' else str(v))
+            if k not in got:
+                out.bad('field-of-the-record-not-in-the-read-name:%s' % k, '%s: demultiplexer tag %s=%r is absent after decoding (header %r...)' % (name, k, v, qname[:80]))
+            elif str(got[k]) != want and not TagDefinitions[k].isPhred:
+                out.bad('field-not-restored:%s' % k, '%s: demultiplexer tag %s=%r, decoded %r' % (name, k, v, got[k]))
         # qualities of the UMI against the ORIGINAL input qualities (layout table strategies)
         lay = ds.LAYOUT.get(name)
         if lay and 'umi' in lay and 'RQ' in got:
